@@ -64,6 +64,7 @@ def toyP : Params where
   isPosInf b := b == 1
   isInteger b := b ≥ 3
   intTooBig n := n.natAbs ≥ 1000000
+  tsFloat s _ := if s.natAbs ≥ 1000000 then none else some (3 + s.toNat)
   reW c := c.isAlphanum || c == '_'
   reS c := c == ' '
   reD c := c.isDigit
